@@ -17,6 +17,8 @@ def fmt_num(x, style):
         return f"{x:.3g}"
     if style == "long":
         return f"{x:.12f}"
+    if style == "f10":
+        return f"{x:.10f}"
     return repr(float(x))
 
 
